@@ -7,7 +7,6 @@ package c18
 
 import (
 	"context"
-	"encoding/json"
 	"fmt"
 	"strings"
 	"testing"
@@ -291,5 +290,3 @@ func TestTimelines(t *testing.T) {
 		runTimeline(t, genTimeline(t))
 	})
 }
-
-var _ = json.Marshal
